@@ -138,7 +138,7 @@ def doT (w : List String) : String :=
       let fl : PFlags := { icase := icS == "1" }
       let ere := mode == "E"
       let txt := if ere then renderERE r else renderBRE r
-      let wf := if ere then wfE r else false
+      let wf := if ere then wfE r else wfB r
       let same := txt == pat
       let back := if ere then parseERE fl pat else parseBRE fl pat
       let rt := match back with
